@@ -1354,13 +1354,13 @@ class Parameter(LieTensor, nn.Parameter):
 
 @contextmanager
 def retain_ltype():
-    # save the original PyTorch functions
-    TO_BE_WRAPPED = {
-        torch.autograd.forward_ad.make_dual,
-        torch._functorch.eager_transforms._wrap_tensor_for_grad,
-        torch._functorch.vmap._add_batch_dim,
-    }
-    torch._functorch.vmap._add_batch_dim.__module__ = 'torch._functorch.vmap'
+    # save the original PyTorch functions together with the place they live in
+    TO_BE_WRAPPED = [
+        (torch.autograd.forward_ad, 'make_dual'),
+        (torch._functorch.eager_transforms, '_wrap_tensor_for_grad'),
+        (torch._functorch.vmap, '_add_batch_dim'),
+    ]
+    saved = [(module, name, getattr(module, name)) for module, name in TO_BE_WRAPPED]
 
     def wrap_function(func):
         def wrapper(*args, **kwargs):
@@ -1374,13 +1374,9 @@ def retain_ltype():
 
     try:
         # swap the original PyTorch functions with the wrapper
-        for func in TO_BE_WRAPPED:
-            module, name = func.__module__, func.__name__
-            module = importlib.import_module(module)
+        for module, name, func in saved:
             setattr(module, name, wrap_function(func))
         yield
     finally:
-        for func in TO_BE_WRAPPED:
-            module, name = func.__module__, func.__name__
-            module = importlib.import_module(module)
+        for module, name, func in saved:
             setattr(module, name, func)
